@@ -316,7 +316,13 @@ class World:
         self.ledger = post
         self.nstep += 1
         if op["kind"] == "add_decimals" and res["r"] == "ok":
-            self.refresh_decimals()
+            # the TRUE decimals of a native denom are what the owner registered last (not what a pair says about itself)
+            dn, dec = op["sem"]["denom"], op["sem"]["decimals"]
+            self.decimals[dn] = dec
+            for p in self.pairs:
+                for i in (0, 1):
+                    if p.assets[i] == ("n", dn):
+                        p.decimals[i] = dec
         return Step(op, pre, post, res, resps[:-1], self.nstep)
 
     def refresh_decimals(self):
